@@ -162,4 +162,7 @@ LIB_TEMPLATES += [
     # 15: a class reached only through a factory; clients call a method of the instance
     "class Foo:\n    def __init__(self, x):\n        self.x = x\n\n    def stat(self):\n        return self.x * 5\n\n\ndef make(x):\n    return Foo(x)\n",
 ]
-
+LIB_TEMPLATES += [
+    # 16: state the library keeps in module variables that only its functions write (global) and only clients read
+    "CACHE_dir = None\n\n\ndef init():\n    global CACHE_dir\n    CACHE_dir = '/tmp/x'\n\n\ndef bump():\n    global hitCount\n    hitCount = 1\n\n\nclass Conf:\n    def load(self):\n        global lastLoaded\n        lastLoaded = 'conf'\n        return self\n",
+]
